@@ -63,7 +63,8 @@ BACKENDS = ["rec", "rec_ctx", "beaker_memory", "beaker_file", "dogpile"]
 VALS = ["a", "b", "c"]
 WVALS = ["w&1", "<w2>", "w~3", "w4"]
 TEXTS = ["lit", "x&y", "<i>", "~z", " ", ".", "q1 "]
-FILTER_DEF = "<%! fb = lambda s: s.replace('~', '~~') %>"
+FILTER_DEF = ("<%!\n    fb = lambda s: s.replace('~', '~~')\n    def dc(fn):\n        def wrapped(context, *a, **k):\n            context.write('{')\n"
+              "            fn(*a, **k)\n            context.write('}')\n            return ''\n        return wrapped\n%>")
 
 CASE_WALL_LIMIT_S = 60
 
@@ -148,6 +149,8 @@ class Emitter:
             s += ' buffered="True"'
         if sec.get("filter"):
             s += ' filter="%s"' % sec["filter"]
+        if sec.get("decorator"):
+            s += ' decorator="dc"'
         return s
 
     def open_section(self, sec, kind, defname, ambient):
@@ -345,6 +348,8 @@ def case_strategy(backends):
             sec["explicit_false"] = draw(st.booleans())
         if kind in ("def", "ndef"):
             sec["buffered"] = draw(st.sampled_from([False, False, True]))
+            # a decorator writing around the call: around the cached section as around the uncached one
+            sec["decorator"] = (not sec["buffered"]) and draw(st.integers(0, 5)) == 0
         sec["filter"] = draw(st.sampled_from([None, None, None, "h", "fb", "trim", "h, fb"]))
         clean = env["clean"] and not sec["filter"] and not (sec["buffered"] and env["bf"])
         sec["body"] = gen_items(draw, backend, dict(env, scope=scope, clean=clean, depth=env["depth"] + 1,
